@@ -6,6 +6,7 @@ usage: add_seeded.py <stage_dir> <prop> <variant> <name> <confirm_log> <detect_l
 import json, os, re, shutil, sys
 
 stage, prop, var, name, confirm = sys.argv[1:6]
+ROUND = int(os.environ.get("SEED_ROUND", "2"))
 dlogs = sys.argv[6:]
 src = os.path.join(stage, prop, var)
 dst = os.path.join("/verif/seeded", name)
@@ -39,8 +40,8 @@ for dl in dlogs:
             hist.append("%s: %s %s" % (os.path.basename(dl), r.group(1), r.group(2)))
             detected = r.group(2) == "VIOLATION"
 meta = {
-    "property": prop, "variant": var, "round": 2, "breaks": title, "needs_to_manifest": needs,
-    "produced_by": "fresh sub-agent (second round: asked for a mechanism different from the first round) given only the text of the property and a scratch worktree of /repo",
+    "property": prop, "variant": var, "round": ROUND, "breaks": title, "needs_to_manifest": needs,
+    "produced_by": "fresh sub-agent (later round: asked for a mechanism different from the earlier rounds) given only the text of the property and a scratch worktree of /repo",
     "patch_applies_to": "HEAD of /repo (after the fix: commits)",
     "confirmed": {"how": "tools/confirm_mutants.sh in a scratch worktree: demo on clean tree, git apply, cargo test --offline (98) [+ cargo test --features cl03 cl1024 (6) for CL03], demo with the change",
                   "result": conf},
